@@ -155,7 +155,10 @@ impl LayerCfg {
                 let (_, h, w) = as_image(input)?;
                 let oh = (h - 1) * stride.0 + kernel.0;
                 let ow = (w - 1) * stride.1 + kernel.1;
-                if oh <= 2 * padding.0 || ow <= 2 * padding.1 {
+                // the library evaluates (h-1)*s - 2p + k left to right in unsigned
+                // arithmetic: configurations where (h-1)*s < 2p trip its overflow check
+                // even though the result is positive; they are not generated
+                if oh <= 2 * padding.0 || ow <= 2 * padding.1 || (h - 1) * stride.0 < 2 * padding.0 || (w - 1) * stride.1 < 2 * padding.1 {
                     return None;
                 }
                 Some(ShapeCfg::Image(*filters, oh - 2 * padding.0, ow - 2 * padding.1))
